@@ -195,21 +195,27 @@ func (r *FeatureLocal) addPendingApproval(msg *api.Message) {
 
 	ski := msg.DeviceRemote.Ski()
 
+	// the timer is created and registered while holding the lock, so that it
+	// can not fire before it is registered
 	r.muxResponseCB.Lock()
-	writeTimeout := r.writeTimeout
-	r.muxResponseCB.Unlock()
+	defer r.muxResponseCB.Unlock()
 
-	newTimer := time.AfterFunc(writeTimeout, func() {
+	newTimer := time.AfterFunc(r.writeTimeout, func() {
 		r.muxResponseCB.Lock()
+		defer r.muxResponseCB.Unlock()
+
+		// if the entry is gone, the write was decided, or the remote device
+		// or entity was removed, after the timer already fired
+		if _, ok := r.pendingWriteApprovals[ski][*msg.RequestHeader.MsgCounter]; !ok {
+			return
+		}
 		delete(r.pendingWriteApprovals[ski], *msg.RequestHeader.MsgCounter)
 		delete(r.pendingWriteApprovalEntities[ski], *msg.RequestHeader.MsgCounter)
-		r.muxResponseCB.Unlock()
 
 		err := model.NewErrorTypeFromString("write not approved in time by application")
 		_ = msg.FeatureRemote.Device().Sender().ResultError(msg.RequestHeader, r.Address(), err)
 	})
 
-	r.muxResponseCB.Lock()
 	if _, ok := r.pendingWriteApprovals[ski]; !ok {
 		r.pendingWriteApprovals[ski] = make(map[model.MsgCounterType]*time.Timer)
 	}
@@ -220,7 +226,6 @@ func (r *FeatureLocal) addPendingApproval(msg *api.Message) {
 		}
 		r.pendingWriteApprovalEntities[ski][*msg.RequestHeader.MsgCounter] = msg.EntityRemote.Address()
 	}
-	r.muxResponseCB.Unlock()
 }
 
 func (r *FeatureLocal) ApproveOrDenyWrite(msg *api.Message, err model.ErrorType) {
